@@ -45,7 +45,10 @@ CLAUSES = [
 ]
 RULE = ("base well-formed sequences (<=6 notes, signatures) paired with: themselves, shuffled insertion orders, the relative "
         "re-representation, and every single-attribute perturbation (pitch, onset, duration, velocity, channel relabel, "
-        "signature value, signature tick) x all 16 flag sets; non-trivial = the pair differs in exactly one attribute")
+        "signature value, signature tick) x all 16 flag sets; with no flag set every verdict is also taken through == / != of Sequence, "
+        "AbsoluteSequence and RelativeSequence and against objects that are no sequences; two signatures of a kind on one tick (D27's class) "
+        "and the channel flag on multi-channel pairs (same events: equal; another attribute differs: unequal) are drawn; "
+        "non-trivial = the pair differs in exactly one attribute")
 ASSUMPTIONS = ["models: SCoda.equalsAbs + SCoda.interleaved, tied by correspondence"]
 FLAGSETS = [(a, b, c, d) for a in (False, True) for b in (False, True) for c in (False, True) for d in (False, True)]
 
@@ -120,15 +123,77 @@ def o_equals(inp):
         fails.append(("copy", "a sequence does not equal its copy"))
     if ab != ba:
         fails.append(("symmetric", f"a==b is {ab}, b==a is {ba}"))
-    # expected verdict from the musical content (channel flag: only uniform relabelling of single-channel sequences
-    # is specified, which `content` with channel erased captures for single-channel inputs)
+    # expected verdict from the musical content, computed from the generator's plain data only.
+    #  * channel flag on single-channel sequences: a uniform relabelling compares equal (content with the channel erased);
+    #  * channel flag on MULTI-channel pairs (audit 3 table, C17): the text specifies two things there — the same events compare equal
+    #    whatever the flags ("holds between sequences built from the same events"), and a difference in any OTHER attribute still makes
+    #    the comparison fail ("each ignore flag relaxes only its own attribute"): pairs whose contents differ even with the channel
+    #    erased must compare unequal.  Only the pairs in between (equal once the channels are erased, but not the same events) are
+    #    left open by the text, and only those are not judged.
     single = len({n[0] for n in na}) <= 1 and len({n[0] for n in nb}) <= 1
-    if flags[0] and not single:
-        return fails
     exp = content(na, sa, flags) == content(nb, sb, flags)
-    if ab != exp:
-        fails.append(("verdict", f"[{kind}] equals={ab} but contents {'equal' if exp else 'differ'} under flags {flags}"))
+    if flags[0] and not single:
+        strict = content(na, sa, (False,) + flags[1:]) == content(nb, sb, (False,) + flags[1:])
+        if strict:
+            exp = True
+        elif not exp:
+            exp = False
+        else:
+            exp = None
+    # a signature that repeats the value in force (as entered) is no musical difference and normalisation drops it: such pairs are
+    # judged only in the direction "same events compare equal"
+    if exp is False and (redundant_signature(sa) or redundant_signature(sb)):
+        exp = None
+    if exp is None:
+        fails.append(("~unjudged:text-leaves-it-open", ""))
+    elif ab != exp:
+        fails.append(("verdict", f"[{kind}] equals: got={ab} expected={exp} (contents {'equal' if exp else 'differ'}) under flags {flags}"))
+    if flags == (False, False, False, False):
+        # `==` / `!=` are the same relation (audit 3, O1): Sequence.__eq__, AbsoluteSequence.__eq__, RelativeSequence.__eq__, through every
+        # route, in both directions, against the same content-based expectation; and against objects that are no sequences
+        try:
+            routes = [("A == B", A == B), ("B == A", B == A), ("not (A != B)", not (A != B)), ("A.abs == B.abs", A.abs == B.abs),
+                      ("B.abs == A.abs", B.abs == A.abs), ("not (A.abs != B.abs)", not (A.abs != B.abs)),
+                      ("A.rel == B.rel", A.rel == B.rel), ("B.rel == A.rel", B.rel == A.rel), ("not (A.rel != B.rel)", not (A.rel != B.rel))]
+            own = [("A == A", A == A), ("A == A.copy()", A == A.copy()), ("A.abs == A.abs", A.abs == A.abs), ("A.rel == A.rel", A.rel == A.rel),
+                   ("A.abs == A.copy().abs", A.abs == A.copy().abs), ("A.rel == A.copy().rel", A.rel == A.copy().rel)]
+            foreign = []
+            for name, x in (("A", A), ("A.abs", A.abs), ("A.rel", A.rel)):
+                for oname, o in (("None", None), ("0", 0), ("'x'", "x"), ("[]", []), ("object()", object())):
+                    foreign.append((f"{name} == {oname}", x == o))
+                    foreign.append((f"not ({name} != {oname})", not (x != o)))
+            # a wrapper against one of its views, a view against the other view: the text does not say what the answer is — it has to be
+            # an answer (a bool, no exception)
+            mixed = [("A == A.abs", A == A.abs), ("A == A.rel", A == A.rel), ("A.abs == A.rel", A.abs == A.rel), ("A.rel == A.abs", A.rel == A.abs),
+                     ("A.abs == A", A.abs == A), ("A.rel == A", A.rel == A)]
+        except Exception as e:
+            return fails + [("raises", f"== raised {type(e).__name__}: {e}")]
+        for name, got in routes:
+            if not isinstance(got, bool):
+                fails.append(("eq-verdict", f"[{kind}] {name} returned {got!r}"))
+            elif exp is not None and got != exp:
+                fails.append(("eq-verdict", f"[{kind}] {name}: got={got} expected={exp} (contents {'equal' if exp else 'differ'})"))
+        for name, got in own:
+            if got is not True:
+                fails.append(("eq-reflexive", f"{name} is {got!r}"))
+        for name, got in mixed:
+            if not isinstance(got, bool):
+                fails.append(("eq-foreign", f"{name} returned {got!r}"))
+        for name, got in foreign:
+            if got is not False:
+                fails.append(("eq-foreign", f"{name} is {got!r} (not a sequence of that kind)"))
     return fails
+
+
+def redundant_signature(sigs):
+    """some signature (in tick order, same-tick ones as entered) repeats the value then in force"""
+    for k in ("ts", "ks"):
+        cur = None
+        for (_, t, v) in sorted((x for x in sigs if x[0] == k), key=lambda x: x[1]):
+            if v == cur:
+                return True
+            cur = v
+    return False
 
 
 def o_equals_raw(inp):
@@ -150,6 +215,23 @@ def o_equals_raw(inp):
         fails.append(("copy", "a sequence does not equal its copy"))
     if ab != ba:
         fails.append(("symmetric", f"a==b is {ab}, b==a is {ba}"))
+    # `==` is the same relation as equals with no flag set (audit 3, O1): reflexive, symmetric, and one answer through all routes
+    try:
+        d_ab, d_ba = A.equals(B), B.equals(A)
+        eq = [("A == B", A == B), ("A.abs == B.abs", A.abs == B.abs), ("A.rel == B.rel", A.rel == B.rel), ("not (A != B)", not (A != B))]
+        qe = [("B == A", B == A), ("B.abs == A.abs", B.abs == A.abs), ("B.rel == A.rel", B.rel == A.rel)]
+        own = [("A == A", A == A), ("A == A.copy()", A == A.copy()), ("A.abs == A.abs", A.abs == A.abs), ("A.rel == A.rel", A.rel == A.rel)]
+    except Exception as e:
+        return fails + [("raises", f"== raised {type(e).__name__}: {e}")]
+    for name, got in own:
+        if got is not True:
+            fails.append(("eq-reflexive", f"{name} is {got!r}"))
+    for (name, got), (name2, got2) in zip(eq, qe):
+        if got != got2:
+            fails.append(("eq-symmetric", f"{name} is {got}, {name2} is {got2}"))
+    for name, got in eq:
+        if got != d_ab:
+            fails.append(("eq-agrees", f"{name} is {got} but A.equals(B) is {d_ab}"))
     return fails
 
 
@@ -157,15 +239,32 @@ def o_equals_raw(inp):
 D30_EXAMPLE = {"a": [G.pm(WAIT, 0, 5), G.pm(OFF, 3, None, note=60)], "b": [], "flags": [False, False, False, False]}
 
 
-def two_sigs_one_tick(inp):
-    """some sequence of the pair holds two DIFFERENT signatures of one kind on one tick"""
-    for side in ("a", "b"):
-        seen = {}
-        for (k, t, v) in inp[side]["sigs"]:
-            v = tuple(v) if isinstance(v, list) else v
-            if (k, t) in seen and seen[(k, t)] != v:
-                return True
-            seen.setdefault((k, t), v)
+def entered_signatures(side, order=None):
+    """(kind, tick) -> the values of that kind on that tick in the order in which `build` enters them (the insort keeps the
+    insertion order of one tick, the stable sort keeps it for one kind and channel)"""
+    notes, sigs = side["notes"], side["sigs"]
+    slots = [None] * (2 * len(notes)) + [(k, t, tuple(v) if isinstance(v, list) else v) for (k, t, v) in sigs]
+    if order is not None:
+        slots = [slots[i] for i in order]
+    out = {}
+    for x in slots:
+        if x is not None:
+            out.setdefault((x[0], x[1]), []).append(x[2])
+    return out
+
+
+def swapped_tie(inp):
+    """D27's class, read off the INPUT as entered: both sequences hold, on some tick, the same signatures of a kind that is compared
+    (not switched off by its ignore flag), at least two different ones, and in a different order"""
+    ea = entered_signatures(inp["a"])
+    eb = entered_signatures(inp["b"], inp.get("order_b"))
+    flags = inp["flags"]
+    for key in ea:
+        if (key[0] == "ts" and flags[1]) or (key[0] == "ks" and flags[2]):
+            continue
+        va, vb = ea[key], eb.get(key, [])
+        if len(set(va)) >= 2 and sorted(va) == sorted(vb) and va != vb:
+            return True
     return False
 
 
@@ -178,7 +277,10 @@ def setup(ctx):
     ctx.oracle("equals_raw", o_equals_raw)
 
     def kf_d27(f):
-        return f["clause"] == "verdict" and two_sigs_one_tick(f["input"])
+        # OUTCOME: the comparison answered "unequal" where the same events were expected to compare equal (never the other way round),
+        # through equals or ==; CLASS: the two sequences hold the same different signatures of a compared kind on one tick in another order
+        return f["oracle"] == "equals" and f["clause"] in ("verdict", "eq-verdict") and "got=False expected=True" in f["detail"] \
+            and swapped_tie(f["input"])
     ctx.kf_predicates["D27"] = kf_d27
     ctx.history_oracles = {"equals"}
 
@@ -244,6 +346,19 @@ def generate(ctx):
             sigs.append(("ts", rng.choice([0, 96]), G.any_sig(rng)))
         if rng.random() < 0.5:
             sigs.append(("ks", rng.choice([0, 48]), rng.randrange(15)))
+        if sigs and rng.random() < 0.3:
+            # a second, DIFFERENT signature of a kind on the tick of the first (D27's class: the insertion order of the two decides) —
+            # or on a later tick
+            k0, t0, v0 = rng.choice(sigs)
+            t1 = t0 if rng.random() < 0.7 else t0 + rng.choice([24, 96])
+            if k0 == "ts":
+                v1 = rng.choice([x for x in [(4, 4), (3, 4), (6, 8), (2, 2), (8, 8)] if x != v0])
+            else:
+                v1 = rng.choice([x for x in range(15) if x != v0])
+            sigs.insert(sigs.index((k0, t0, v0)) + 1, (k0, t1, v1))
+            ctx.count("two-signatures-of-a-kind:" + ("one-tick" if t1 == t0 else "two-ticks"))
+        if len({n[0] for n in notes}) > 1:
+            ctx.count("multi-channel-base")
         perts = perturbations(rng, notes, sigs)
         for kind, nb, sb in perts:
             if kind not in ("identical",) and not wf_filter(nb) == nb:
@@ -261,6 +376,10 @@ def generate(ctx):
                        "kind": kind, "order_b": order, "via_rel": via_rel}
                 ctx.case((notes, sigs, nb, sb, flags), kind != "identical")
                 ctx.count("kind:" + kind)
+                if flags[0] and (len({n[0] for n in notes}) > 1 or len({n[0] for n in nb}) > 1):
+                    ctx.count("ignore_channel-on-multi-channel-pair")
+                if swapped_tie(inp):
+                    ctx.count("same-tick-signatures-entered-in-another-order(D27 class)")
                 ctx.check("equals", inp)
                 A, _ = build(notes, sigs)
                 B, _ = build(nb, sb, order)
